@@ -1,11 +1,16 @@
 (* C03 — Lookahead sets and conflict reports are exactly LALR(1).
    The reference construction (Gram/LalrRef.v, Gram/LalrTables.v) is an executable definition: LR(0) collection
    over kernels, lookaheads = least solution of the closure/goto propagation constraints, cells and conflict
-   counts by the precedence fold.  What is PROVED here concerns the cell/conflict layer; the equality of the
-   least fixpoint with the inductive LR(1)-validity definition is not proved (partial) — the reference is
-   compared with textmapper on every run instead. *)
+   counts by the precedence fold.  It is compared with textmapper on every run.
+   PROVED here: (1) the lookahead table lalr_la IS the declarative LALR(1) lookahead function of Gram/LalrSpec.v
+   (LR(1)-validity by start / closure / goto rules, union over all symbol strings reaching the state):
+   soundness for every automaton whose states consist of LR(0)-valid items, completeness for every stable
+   table; the side conditions are a boolean certificate (Gram/LalrCert.v: aut_cert / la_cert) that is evaluated
+   on the reference construction for every generated grammar; (2) the cell/conflict layer.
+   NOT proved: that build_automaton passes aut_cert for every grammar and fuel (it is evaluated instead). *)
 From Coq Require Import List ZArith Bool.
 From TM Require Import Gram.Cfg Gram.LalrRef Gram.Prec Gram.Prec_proofs Gram.PTables Gram.LalrTables.
+From TM Require Import Gram.LalrSpec Gram.LalrSpec_proofs Gram.LalrSpec_proofs2 Gram.LalrCert Gram.LalrCert_proofs.
 Import ListNotations.
 Local Open Scope Z_scope.
 
@@ -36,6 +41,38 @@ Proof.
   rewrite (cell_reduce_reduce g t r1 r2 H). reflexivity.
 Qed.
 
+(* ---------- the lookahead sets are LALR(1) ---------- *)
+(* Soundness: every lookahead the iteration puts on an item of a state is LALR(1)-valid: the item with this
+   lookahead belongs to the LR(1) item set of some symbol string that leads to the state. *)
+Theorem C03_lalr_la_sound :
+  forall g a, seeds_ok g a -> aut_sound g a ->
+  forall fuel q it x, In x (la_get (lalr_la g a fuel) q it) -> lalr1 g a q it x.
+Proof. exact lalr_la_sound. Qed.
+
+(* Completeness: when the iteration has become stable (the test la_fix itself uses) and nullable/FIRST are
+   closed under the rules, every LALR(1)-valid lookahead is in the table. *)
+Theorem C03_lalr_la_complete :
+  forall g a fuel,
+  wf_lhs g = true ->
+  nullable_closed g (nullable_set g) = true ->
+  first_closed g (nullable_set g) (first_sets g) = true ->
+  la_stable g a (nullable_set g) (first_sets g) (lalr_la g a fuel) = true ->
+  starts_present g a -> aut_complete g a ->
+  forall q it x, lalr1 g a q it x -> In x (la_get (lalr_la g a fuel) q it).
+Proof. exact lalr_la_complete. Qed.
+
+(* Both directions from the boolean certificate (all side conditions above are decided by la_cert). *)
+Theorem C03_lalr_la_exact :
+  forall g a fuel, la_cert g a fuel = true ->
+  forall q it x, In x (la_get (lalr_la g a fuel) q it) <-> lalr1 g a q it x.
+Proof. exact lalr_la_exact. Qed.
+
+(* FIRST and nullable compute only derivable facts. *)
+Theorem C03_first_sound :
+  forall g, (forall x, In x (nullable_set g) -> nullable_sym g x) /\
+            (forall X b, In b (ft_get (first_sets g) X) -> first_sym g X b).
+Proof. intros g. split; [exact (nullable_set_ok g)|exact (first_sets_ok g)]. Qed.
+
 (* The classic LALR(1)-but-not-SLR(1) grammar: S -> L = R | R; L -> * R | id; R -> L
    (terminals: 1 '=', 2 '*', 3 id; nonterminals 4 S, 5 L, 6 R).  The reference finds no conflict, and in the
    state {S -> L . = R, R -> L .} the reduction R -> L has lookahead {eoi} only (SLR would add '='). *)
@@ -49,5 +86,19 @@ Example C03_reference_on_the_classic_grammar :
   exists v, In v (ro_views ro) /\ v_kernel v = [(0, 1); (4, 1)] /\ v_reduce v = [4] /\ v_la v = [[0]].
 Proof. vm_compute. repeat split; try reflexivity. eexists. split; [right; right; right; left; reflexivity|repeat split]. Qed.
 
+(* The certificate holds for the reference construction of the classic grammar: the hypotheses of the
+   theorems above are satisfiable, and its lookahead table is exactly LALR(1). *)
+Example C03_certificate_on_the_classic_grammar : ref_cert ex_g 200 = true.
+Proof. vm_compute. reflexivity. Qed.
+
+Example C03_classic_grammar_la_is_LALR1 :
+  let a := fst (build_automaton ex_g 200) in
+  forall q it x, In x (la_get (lalr_la ex_g a 200) q it) <-> lalr1 ex_g a q it x.
+Proof. apply lalr_la_exact. vm_compute. reflexivity. Qed.
+
 Print Assumptions C03_shift_reduce_cell_counts_iff_undecided.
 Print Assumptions C03_reduce_reduce_cell_counts.
+Print Assumptions C03_lalr_la_sound.
+Print Assumptions C03_lalr_la_complete.
+Print Assumptions C03_lalr_la_exact.
+Print Assumptions C03_first_sound.
